@@ -19,8 +19,9 @@
       chk_key     object-key dataflow: UHandle true only with fs+2 <= fe <= p known
       chk_seg     segment dataflow: UAppendSeg/UUnescapeU only with 0 <= seg <= p known,
                   UAdvanceU only with p - seg <= 5 known and after UUnescapeU
-      chk_eof     eof units: only USetErr/UBreak(after USetErr)/UBreakIfErr/UReturnErr/
-                  UAppendSeg(with seg known)/UAppendByte/USetVal *)
+      chk_eof     eof units of reachable states: only USetErr/UBreak(after USetErr)/UBreakIfErr/
+                  UReturnErr/UAppendSeg(with seg known)/UAppendByte/USetVal
+      chk_eofk    every eof list of the table uses only those unit kinds *)
 From Coq Require Import List ZArith Bool.
 From Coq Require Strings.String.
 From Coq Require Import Strings.Byte.
@@ -401,9 +402,19 @@ Fixpoint eof_scan (segok errset : bool) (us : list unit_) : bool :=
 Definition chk_eof (rm : rawmachine) (A : anntab) : bool :=
   forallb (fun qa : Z * ann => eof_scan (g_ok (a_seg (snd qa))) false (raw_eof rm (fst qa))) A.
 
+(** all eof lists of the table (reachable or not) use only the eof unit kinds *)
+Definition eof_unit_kind (u : unit_) : bool :=
+  match u with
+  | USetErr _ | UBreak _ | UBreakIfErr _ | UReturnErr _ | UAppendSeg | UAppendByte _ | USetVal _ => true
+  | _ => false
+  end.
+Definition chk_eofk (rm : rawmachine) : bool :=
+  forallb (fun qe : Z * list unit_ => forallb eof_unit_kind (snd qe)) (rm_eof rm).
+
 Definition chk_all (rm : rawmachine) (A : anntab) : bool :=
   chk_flags rm && chk_start rm A && chk_struct rm A && chk_blocks rm A && chk_unknown rm A
-  && chk_consts rm A && chk_cls rm A && chk_hnd rm A && chk_key rm A && chk_seg rm A && chk_eof rm A.
+  && chk_consts rm A && chk_cls rm A && chk_hnd rm A && chk_key rm A && chk_seg rm A && chk_eof rm A
+  && chk_eofk rm.
 
 Definition wf_check (rm : rawmachine) : bool := chk_all rm (compute_ann rm).
 
@@ -416,7 +427,7 @@ Module Diag.
     [("flags", chk_flags rm); ("start", chk_start rm A); ("struct", chk_struct rm A);
      ("blocks", chk_blocks rm A); ("unknown", chk_unknown rm A); ("consts", chk_consts rm A);
      ("cls", chk_cls rm A); ("hnd", chk_hnd rm A); ("key", chk_key rm A); ("seg", chk_seg rm A);
-     ("eof", chk_eof rm A)].
+     ("eof", chk_eof rm A); ("eofk", chk_eofk rm)].
 End Diag.
 Definition wf_ingredients := Diag.wf_ingredients.
 
